@@ -16,9 +16,12 @@
 //	{e:"wev", at, w, wid, ph, kind, r}   after Watch.Next returned an event (ph = snap|live)
 //	{e:"wrd", at, w, wid, k, res}    after the Read(k) that follows every received upsert/delete event returned
 //	{e:"wdone", at, w, wid}          the watcher saw the final fence writes of every tenancy its query matches
-//	{e:"reset", h, backend, keys, watches:[{wid,q,snap,eos,first}]}   history header (initial listings re-arranged
-//	                                 up front; first = position of the watch's first event, 0 if none; inv events
-//	                                 also carry rat = the position of their return)
+//	{e:"reset", h, backend, keys, watches:[{wid,q,snap,eos,first,live,nlive}]}   history header (recorded data
+//	                                 re-arranged up front: snap = the initial listing, first = position of the
+//	                                 watch's first event (0 if none), live = the first live event of every resource,
+//	                                 nlive = number of live events; inv events also carry rat = position of their return)
+//	{e:"stall", at, pending}         written by the watchdog when no log point was taken for -stall seconds: the run
+//	                                 is stuck; calls that never returned have res.t = "pending"
 //
 // No verdict is computed here; spec/ResourceStoreTrace.tla decides.
 package main
@@ -47,6 +50,8 @@ import (
 type M = map[string]any
 
 type keyT struct{ P, N, Name string }
+
+var stallAfter = 20 * time.Second
 
 var (
 	tenancies = [][2]string{{"default", "default"}, {"default", "n2"}, {"p2", "default"}}
@@ -164,9 +169,38 @@ type history struct {
 	canSnap bool
 }
 
-type logger struct{ ev []event }
+type logger struct {
+	mu sync.Mutex
+	ev []event
+}
 
-func (l *logger) add(at int64, m M) { m["at"] = at; l.ev = append(l.ev, event{at, m}) }
+func (l *logger) add(at int64, m M) {
+	l.mu.Lock()
+	m["at"] = at
+	l.ev = append(l.ev, event{at, m})
+	l.mu.Unlock()
+}
+
+// copyOut returns copies of the logged events; calls that have not returned get res.t = "pending".
+func (l *logger) copyOut() []event {
+	l.mu.Lock()
+	defer l.mu.Unlock()
+	out := make([]event, 0, len(l.ev))
+	for _, e := range l.ev {
+		m := M{}
+		for k, v := range e.m {
+			m[k] = v
+		}
+		if m["e"] == "inv" {
+			if _, ok := m["res"]; !ok {
+				m["res"] = M{"t": "pending", "e": "", "rs": []any{}}
+				m["rat"] = 0
+			}
+		}
+		out = append(out, event{e.at, m})
+	}
+	return out
+}
 
 func (h *history) learn(k keyT, v kv) {
 	h.mu.Lock()
@@ -190,9 +224,13 @@ func (h *history) call(l *logger, g int, op M, gated bool, fn func() M) M {
 		defer h.gate.RUnlock()
 	}
 	id := h.seq.Add(1)
+	inv := M{"e": "inv", "id": id, "g": g, "op": op}
+	l.add(id, inv) // logged before the call so that a call that never returns is on record
 	res := fn()
 	at := h.seq.Add(1)
-	l.add(id, M{"e": "inv", "id": id, "g": g, "op": op, "res": res, "rat": at})
+	l.mu.Lock()
+	inv["res"], inv["rat"] = res, at
+	l.mu.Unlock()
 	l.add(at, M{"e": "ret", "id": id, "g": g})
 	return res
 }
@@ -487,6 +525,7 @@ type stats struct {
 	WatchEv   int            `json:"watch_events"`
 	Watches   int            `json:"watches"`
 	Restores  int            `json:"restores"`
+	Stalls    int            `json:"stalls"`
 	Classes   map[string]int `json:"classes"`
 	MaxPend   int            `json:"max_pending"`
 }
@@ -550,26 +589,55 @@ func runHistory(hn int, backend string, seed int64, ops, gN, wN int, seq *atomic
 		gr := rand.New(rand.NewSource(r.Int63()))
 		go func(g int) { defer gwg.Done(); h.worker(g, gr, per, logs[g]) }(g)
 	}
-	gwg.Wait()
-	stop.Store(true)
-	// fence writes: the last events of every tenancy; watchers stop once they have seen them
-	ml := logs[gN+wN]
-	for _, f := range h.fence {
-		h.write(ml, 99, f, h.newUid(), "", 1, nil)
-	}
-	done := make(chan struct{})
-	go func() { wwg.Wait(); close(done) }()
-	select {
-	case <-done:
-	case <-time.After(60 * time.Second):
-		fatal(3, "history %d (%s): a watcher did not observe the final fence events within 60s", hn, backend)
+	finished := make(chan struct{})
+	go func() {
+		gwg.Wait()
+		stop.Store(true)
+		// fence writes: the last events of every tenancy; watchers stop once they have seen them
+		ml := logs[gN+wN]
+		for _, f := range h.fence {
+			h.write(ml, 99, f, h.newUid(), "", 1, nil)
+		}
+		wwg.Wait()
+		close(finished)
+	}()
+	// watchdog: no log point taken anywhere for stallAfter => the run is stuck (deadlock, lost event);
+	// the history is written out as it stands, ending with a "stall" event, and abandoned.
+	stalled := false
+	last, since := seq.Load(), time.Now()
+wait:
+	for {
+		select {
+		case <-finished:
+			break wait
+		case <-time.After(100 * time.Millisecond):
+			if cur := seq.Load(); cur != last {
+				last, since = cur, time.Now()
+			} else if time.Since(since) > stallAfter {
+				stalled = true
+				break wait
+			}
+		}
 	}
 	cancel()
-	sut.Close()
+	if !stalled {
+		sut.Close()
+	}
 
 	var evs []event
 	for _, l := range logs {
-		evs = append(evs, l.ev...)
+		evs = append(evs, l.copyOut()...)
+	}
+	if stalled {
+		pending := []any{}
+		for _, e := range evs {
+			if e.m["e"] == "inv" && e.m["res"].(M)["t"] == "pending" {
+				pending = append(pending, e.m["id"])
+			}
+		}
+		at := seq.Add(1)
+		evs = append(evs, event{at, M{"e": "stall", "at": at, "pending": pending, "after_s": int(stallAfter.Seconds())}})
+		st.Stalls++
 	}
 	writeHistory(hn, backend, gN, wN, h, evs, out, st)
 }
@@ -583,6 +651,9 @@ func writeHistory(hn int, backend string, gN, wN int, h *history, evs []event, o
 		snap  []any
 		eos   bool
 		first int64
+		live  []any
+		seenK map[string]bool
+		nlive int
 	}
 	decl := map[int64]*wd{}
 	var order []int64
@@ -591,12 +662,21 @@ func writeHistory(hn int, backend string, gN, wN int, h *history, evs []event, o
 		switch e.m["e"] {
 		case "wopen":
 			id := e.m["wid"].(int64)
-			decl[id] = &wd{q: e.m["q"], snap: []any{}}
+			decl[id] = &wd{q: e.m["q"], snap: []any{}, live: []any{}, seenK: map[string]bool{}}
 			order = append(order, id)
 		case "wev":
 			d := decl[e.m["wid"].(int64)]
 			if d.first == 0 {
 				d.first = e.at
+			}
+			if e.m["ph"] == "live" && (e.m["kind"] == "upsert" || e.m["kind"] == "delete") {
+				r0 := e.m["r"].([]any)[0].(M)
+				kb, _ := json.Marshal(r0["k"])
+				d.nlive++
+				if !d.seenK[string(kb)] {
+					d.seenK[string(kb)] = true
+					d.live = append(d.live, M{"k": r0["k"], "kind": e.m["kind"], "ver": r0["ver"]})
+				}
 			}
 			if e.m["ph"] == "snap" {
 				if e.m["kind"] == "eos" {
@@ -631,7 +711,7 @@ func writeHistory(hn int, backend string, gN, wN int, h *history, evs []event, o
 	wl := []any{}
 	for _, id := range order {
 		d := decl[id]
-		wl = append(wl, M{"wid": id, "q": d.q, "snap": d.snap, "eos": d.eos, "first": d.first})
+		wl = append(wl, M{"wid": id, "q": d.q, "snap": d.snap, "eos": d.eos, "first": d.first, "live": d.live, "nlive": d.nlive})
 	}
 	var keys []any
 	for _, k := range append(append([]keyT{}, h.keys...), h.fence...) {
@@ -752,7 +832,7 @@ func scenario(name, backend string, seq *atomic.Int64, out *bufio.Writer, st *st
 	b.w.Close()
 	sut.Close()
 	h.keys = []keyT{x}
-	writeHistory(0, backend+"/"+name, 1, 2, h, l.ev, out, st)
+	writeHistory(0, backend+"/"+name, 1, 2, h, l.copyOut(), out, st)
 }
 
 func main() {
@@ -764,11 +844,13 @@ func main() {
 	w := flag.Int("watchers", 0, "watcher goroutines (0 = 1..2 at random)")
 	first := flag.Int("first", 0, "number of the first history")
 	outp := flag.String("out", "", "output ndjson")
+	stall := flag.Int("stall", 20, "seconds without any progress after which a history is recorded as stalled")
 	scen := flag.String("scenario", "", "run a fixed sequential script instead of random histories (restore-stale)")
 	flag.Parse()
 	if *outp == "" {
 		fatal(2, "-out required")
 	}
+	stallAfter = time.Duration(*stall) * time.Second
 	f, err := os.Create(*outp)
 	if err != nil {
 		fatal(2, "%v", err)
